@@ -21,8 +21,8 @@ import (
 
 	"github.com/libp2p/go-libp2p/core/network"
 	"github.com/libp2p/go-libp2p/core/peer"
-	vs "github.com/libp2p/go-libp2p/x/verif/vsched"
 	"github.com/libp2p/go-libp2p/x/verif/vrep"
+	vs "github.com/libp2p/go-libp2p/x/verif/vsched"
 	ma "github.com/multiformats/go-multiaddr"
 )
 
@@ -68,15 +68,15 @@ type c14sScn struct {
 }
 
 type c14sEnv struct {
-	x      *vs.Exec
-	cm     *BasicConnMgr
-	conns  map[string]*c14sConn // by peer name (+suffix)
-	nConn  int                  // Connected minus Disconnected delivered
-	tags   map[string]map[string]int
-	trims  [][2]int64 // [start,end] stamps of trims
-	protAt map[string]int64
-	unprot map[string]bool
-	fresh  map[string]bool // peers connected during the race (inside grace)
+	x             *vs.Exec
+	cm            *BasicConnMgr
+	conns         map[string]*c14sConn // by peer name (+suffix)
+	nConn         int                  // Connected minus Disconnected delivered
+	tags          map[string]map[string]int
+	trims         [][2]int64 // [start,end] stamps of trims
+	protAt        map[string]int64
+	unprot        map[string]bool
+	fresh         map[string]bool // peers connected during the race (inside grace)
 	lowAllTheTime bool
 	allowed       map[string][]int // peers whose tag operations do not commute: the totals some order produces
 }
@@ -225,7 +225,7 @@ func c14sOracle(x *vs.Exec, sc c14sScn, e *c14sEnv) {
 			x.Fail("protected-peer-trimmed", "connection %s closed by a trim that began at %d, but peer %s was protected at %d and never unprotected", name, tr[0], p, at)
 			return
 		}
-		if e.fresh[p] {
+		if e.fresh[p] || e.fresh[name] { // (by peer, or by connection where an older connection of the peer existed)
 			x.Fail("peer-in-grace-period-trimmed", "connection %s of peer %s closed although the peer connected during the race (inside its grace period)", name, p)
 			return
 		}
@@ -246,7 +246,11 @@ func c14sScenarios(thorough bool) []c14sScn {
 						e.cm.Protect(c14sPeer("C"), "keep")
 						e.protAt["C"] = vs.Stamp()
 					},
-					func() { e.tag("B", "extra", 20); e.cm.UpsertTag(c14sPeer("A"), "up", func(v int) int { return v + 3 }); e.tags["A"]["up"] = 3 },
+					func() {
+						e.tag("B", "extra", 20)
+						e.cm.UpsertTag(c14sPeer("A"), "up", func(v int) int { return v + 3 })
+						e.tags["A"]["up"] = 3
+					},
 					func() { e.fresh["D"] = true; e.connect("D1", "D") },
 				}
 			}},
@@ -277,6 +281,18 @@ func c14sScenarios(thorough bool) []c14sScn {
 					func() {
 						e.cm.Notifee().Connected(nil, e.conns["B1"]) // duplicate: must not count twice
 						e.connect("B2", "B")
+					},
+				}
+			}},
+		{Name: "a peer's last connection drops and the peer reconnects and is tagged while a trim runs", Low: 1, Hi: 2, Peers: []string{"A", "B", "C"}, Tags: map[string]int{"A": 10, "B": 5, "C": 1},
+			Race: func(e *c14sEnv) []func() {
+				return []func(){
+					func() { e.trim() },
+					func() {
+						e.cm.Notifee().Disconnected(nil, e.conns["C1"]) // last connection of C: its record goes, its tags with it
+						vs.Locked(func() { e.nConn--; delete(e.tags, "C"); e.fresh["C2"] = true })
+						e.connect("C2", "C") // a new record, inside its grace period
+						e.tag("C", "again", 7)
 					},
 				}
 			}},
